@@ -41,6 +41,7 @@ type key int32
 - "processing" locks onRequest handler, and doesn't exist in dialer.
 - "flushing" locks outputBuffer
 - "closing" should wait for flushing finished and call the closeCallback after that.
+- "registering" is held while the connection registers its operator; the closeCallback waits for it.
 */
 
 const (
@@ -48,6 +49,7 @@ const (
 	connecting
 	processing
 	flushing
+	registering
 	// total must be at the bottom.
 	total
 )
